@@ -127,7 +127,7 @@ def shard(p):
             by_key.setdefault(e["key"], []).append(e)
         reqs, meta = [], []
         for _ in range(p["n_concat"]):
-            k = rng.choice([2, 2, 3])
+            k = rng.choice([2, 2, 3, 2, 2, 3, 2, 2, 3, 5, 7])
             es = [rng.choice(single) for _ in range(k)]
             if len({e["key"] for e in es}) != k:
                 continue
@@ -135,7 +135,7 @@ def shard(p):
             reqs.append({"op": "query", "q": "1 " + w})
             meta.append(("concat", w, None))
         for _ in range(p["n_expr"]):
-            k = rng.randint(2, 5)
+            k = rng.randint(2, 5) if rng.random() < 0.96 else rng.choice([8, 12, 20])
             es, keys = [], {}
             for _ in range(k):
                 e = rng.choice(single)
